@@ -11,6 +11,8 @@ NOTE = ("Trusted: go/ssa construction (x/tools v0.29.0), the engine's instructio
 
 # property -> (claimed?, level text, design ref)
 CLAIMED = {
+ "C01": ("For each of the 57 PDU types (+ the CMPP status-report body) a generated in-package harness builds the PDU from symbolic field values (all integer values, all text contents and lengths 0..w+1, all binary octets), runs the real IEncode and IDecode symbolically and decides field-wise equality, the length prefix and the refusal of over-long values with z3 on every path; list counts, body lengths and optional-parameter shapes are enumerated as listed in the evidence.", "DESIGN.md 8 C01"),
+ "C02": ("Same symbolic PDUs as C01; the encoder's bytes are compared octet-for-octet with a reference image assembled from layout tables transcribed from the specifications (independent of the library's writer), and the reference image is decoded and compared field-wise. Includes the list counts 12/13 (and 99/255 thorough) where length arithmetic can wrap.", "DESIGN.md 8 C02"),
  "C07": ("The concatenation-header parser is decided for every string up to 10 octets (all header octets symbolic); the generic splitter for every octet stream of the listed lengths (content and reference symbolic) against an independent oracle (sizes, header octets, minimal part count, parser inverse); the 255-part limit through the real entry points.", "DESIGN.md 8 C07"),
  "C20": ("One-step induction: every write/read primitive is executed symbolically from an arbitrary valid or errored object state with arbitrary arguments; inverse, count/length agreement and error stickiness are solver-decided per primitive. Bounded by buffer sizes listed in the evidence.", "DESIGN.md 8 C20"),
  "C08": ("Encode/Decode/validators are decided for every code point and every septet pair against an independently transcribed TS 23.038 table; Pack/Unpack and the transformers for every septet vector up to the stated length against the bit-position formula. Bounded by vector length only.", "DESIGN.md 8 C08"),
